@@ -422,6 +422,31 @@ def r_c15(p):
     return {"violates": bool(probs), "vector": vec, "problems": probs[:4]}
 
 
+def _vector_with_base(version, vec, want):
+    """a valid vector of the version whose real base score is `want` (replay-side search over the
+    base metrics, keeping the witness' optional fields); None if no base assignment has it"""
+    import itertools
+
+    from spec import grammar as G
+
+    g = G.GRAMMARS[version]
+    cls = _cls(version)
+    mand = set(g["mandatory"])
+    fields = vec.split("/")
+    head = [f for f in fields if ":" in f and f.split(":")[0] == "CVSS"]
+    rest = [f for f in fields if f not in head and f.split(":")[0] not in mand]
+    doms = [(met, vals) for met, vals in g["metrics"] if met in mand]
+    for keep_rest in (True, False):
+        for combo in itertools.product(*[vals for _, vals in doms]):
+            cand = "/".join(head + [m + ":" + v for (m, _), v in zip(doms, combo)] + (rest if keep_rest else []))
+            try:
+                if cls(cand).scores()[0] == want:
+                    return cand
+            except Exception:  # noqa: BLE001
+                continue
+    return None
+
+
 def r_c12(p):
     import cvss
     from cvss import exceptions as X
@@ -432,6 +457,12 @@ def r_c12(p):
     n = "CVSS%d" % version
     o = cls(vec)
     probs = []
+    if "score_text" in p and "abstract_base" in p and o.scores()[0] != p["abstract_base"]:
+        # the solver's witness fixes (base score, score text); find a real vector with that score
+        alt = _vector_with_base(version, vec, p["abstract_base"])
+        if alt is not None:
+            vec = alt
+            o = cls(vec)
     rh = o.rh_vector()
     base = o.scores()[0]
     if rh != ("%.1f" % base) + "/" + o.clean_vector() or wellformed(base, False):
@@ -441,8 +472,20 @@ def r_c12(p):
             probs.append("from_rh_vector(rh_vector()) != x")
     except Exception as e:  # noqa: BLE001
         probs.append("from_rh_vector(%r) raises %s" % (rh, type(e).__name__))
-    if "score_text" in p:
-        t = p["score_text"]
+    texts = [p["score_text"]] if "score_text" in p else []
+    if "score_text_rel" in p:
+        from decimal import Decimal
+
+        d = p["score_text_rel"]
+        b = Decimal(repr(float(base)))
+        texts = [str(b) + d[2:] if d in ("0.0", "0.00") else str(b + Decimal(d))]
+    if texts and "abstract_base" in p and base != p["abstract_base"]:
+        # no real vector has the witness' abstract base score: same question for the witness'
+        # vector with its real base score, over the check's finite score-text alphabet
+        texts += [t for t in p.get("alphabet", []) if t not in texts]
+    for t in texts:
+        if probs:
+            break
         s = t + "/" + o.clean_vector()
         try:
             f = float(t)
